@@ -184,6 +184,10 @@ def run(ctx):
             continue
         cls = (o["rc"], o["called"], len(d) if len(d) < 8 else min(len(d) - 8, 520), d[0] >> 4 if d else None)
         ctx.nontrivial(("rx",) + cls[:2] + (cls[2] if cls[2] in (148, 150, 444, 446) else "other", cls[3] == 0))
+        if o["called"] and not (o["tn"] <= 7 and o["fn"] < H and len(o["burst"]) in (148, 444) and all(-127 <= s <= 127 for s in o["burst"])
+                                and o["rts_called"] and o["rts"][1] == o["tn"] and o["rts"][0] < H):
+            ctx.oracle_fail("trxcon hands an ill-formed burst indication to its scheduler", dict(octets=d, observed={f: v for f, v in o.items() if f != "burst"}),
+                            key="c04-c-rx-ind-shape:" + ("fn" if o["fn"] >= H else "len" if len(o["burst"]) not in (148, 444) else "other"))
         if k is None:
             continue
         m, legacy = msgs[k]
